@@ -304,6 +304,16 @@ def merge_values(test, a, b):
             return cat(pre + [mid] + suf, 'bytes')
     if isinstance(a, list) and isinstance(b, list) and len(a) == len(b):
         return [merge_values(test, x, y) for x, y in zip(a, b)]
+    if isinstance(a, dict) and isinstance(b, dict):
+        out = {}
+        for k in list(a.keys()) + [k for k in b.keys() if k not in a]:
+            if k in a and k in b:
+                out[k] = merge_values(test, a[k], b[k])
+            elif k in a:
+                out[k] = merge_values(test, a[k], S(('undefined', str(k))))
+            else:
+                out[k] = merge_values(test, S(('undefined', str(k))), b[k])
+        return out
     return S(('cond', test, term(a), term(b)), ty)
 
 
@@ -337,6 +347,7 @@ class Interp:
         self.loop_stack = []
         self.frames = []       # per-call exit lists
         # optional observers (taint / sink rules): called with the live state so that the path condition is visible
+        self.assume_full_reads = False  # a stream.read(n) with constant n > 0 returns n bytes (well-formed input)
         self.inline_setters = False   # inline property setters of self_cls on `self.<prop> = v`
         self.obs_store = None  # fn(target_term, value, st, node)      attribute / subscript stores
         self.obs_exit = None   # fn(kind, value, st, node)              return / raise
@@ -597,6 +608,15 @@ class Interp:
             return ov
         if isinstance(nv, Model):
             raise AnalysisError('object model mutated inside a symbolic loop')
+        if had and isinstance(ov, dict) and isinstance(nv, dict):
+            out = {}
+            for k, v in nv.items():
+                out[k] = self._loop_summary(coll, vname, '%s[%r]' % (name, k), ov.get(k), v, k in ov)
+            return out
+        if had and isinstance(ov, list) and isinstance(nv, list) and len(nv) >= len(ov) and all(_vals_equal(a, b) for a, b in zip(ov, nv)):
+            # list grown by appends inside the loop: ov + [repeat(delta)]
+            delta = [term(x) for x in nv[len(ov):]]
+            return list(ov) + [S(('repeat', coll, vname, ('list',) + tuple(delta)))]
         if had:
             po, pn = parts_of(ov) if _is_seq(ov) else None, parts_of(nv) if _is_seq(nv) else None
             if po is not None and pn is not None:
@@ -793,6 +813,10 @@ class Interp:
                 return len(v) > 0
             return bool(v)
         t = v.t
+        if isinstance(t, tuple) and t and t[0] == 'rev':
+            return self.truth(S(t[1]), st)
+        if isinstance(t, tuple) and t and t[0] == 'read' and isinstance(t[2], int) and t[2] > 0 and self.assume_full_reads:
+            return True
         # path-condition lookup
         for (pt, pol) in st.pc:
             if pt == t:
